@@ -15,7 +15,8 @@ EXTRA = {  # checks besides the seed's own property that are worth running again
     "C19-A": ["C09"], "C04-E": ["C14"], "C04-F": ["C15"], "C07-G": ["C14"], "C18-E": ["C07"], "C01-F": ["C02"],
     "C07-C": ["C18"], "C07-D": ["C18"], "C01-D": ["C02"], "C12-F": ["C11"], "C15-E": ["C04"], "C06-E": ["C05"],
     "C06-F": ["C05"], "C04-G": ["C14"], "C04-H": ["C14"], "C08-E": ["C18"], "C19-H": ["C09"], "C05-G": ["C06"],
-    "C18-G": ["C07"],
+    "C18-G": ["C07"], "C08-H": ["C18"], "C08-G": ["C07"], "C17-G": ["C14"], "C09-G": ["C17"], "C20-H": ["C14"],
+    "C03-G": ["C14"], "C03-H": ["C01"], "C06-G": ["C05"], "C06-H": ["C05"], "C15-H": ["C04"], "C11-H": ["C10"],
 }
 
 
